@@ -110,27 +110,80 @@ theorem negHalf_sub_mu [CharZero K] (δ : Mat N N K) (lm : Fin nl → Fin N) (a 
   unfold lmdsMu
   ring
 
-/-- core of `triangulate_fixes_landmarks`: for an eigen-system of `lmdsB` with nonzero eigenvalues, the
-    triangulation expression evaluated on the squared distances of landmark `a` to the landmarks returns row `a`
-    of the landmark embedding -/
+/-- core of `triangulate_fixes_landmarks`: for an eigen-system of `lmdsB`, the triangulation expression with the
+    landmark eigenvectors scaled column-wise by `c` (`c i = s i / lam i` where the pseudo-inverse divides, `0` where it
+    zeroes the column), evaluated on the squared distances of landmark `a` to the landmarks, returns
+    `c i * lam i * V a i` -/
 theorem triangulation_of_landmark_column [CharZero K] (δ : Mat N N K) (lm : Fin nl → Fin N) (hn : (nl : K) ≠ 0)
-    (V : Mat nl d K) (lam s : Vec d K) (heig : IsEig (lmdsB δ lm) V lam) (hl : ∀ i, lam i ≠ 0)
-    (a : Fin nl) (i : Fin d) :
-    negHalf * ∑ b, divCols (post V s) lam b i * (landmarkSqDist δ lm a b - lmdsMu δ lm b) = V a i * s i := by
-  have hsum : ∑ b, V b i = 0 := eig_sum_zero heig (lmdsB_col_sum δ lm hn) i (hl i)
-  have hW : ∀ b, divCols (post V s) lam b i = V b i * (s i / lam i) := by
-    intro b; simp [divCols, post]; ring
-  calc negHalf * ∑ b, divCols (post V s) lam b i * (landmarkSqDist δ lm a b - lmdsMu δ lm b)
-      = ∑ b, (V b i * (s i / lam i)) * (negHalf * (landmarkSqDist δ lm a b - lmdsMu δ lm b)) := by
-        rw [Finset.mul_sum]; apply Finset.sum_congr rfl; intro b _; rw [hW]; ring
-    _ = ∑ b, ((s i / lam i) * (lmdsB δ lm a b * V b i)
-          - (s i / lam i) * (negHalf * (grandMean (landmarkSqDist δ lm) - lmdsMu δ lm a)) * V b i) := by
+    (V : Mat nl d K) (lam : Vec d K) (heig : IsEig (lmdsB δ lm) V lam) (a : Fin nl) (i : Fin d) (c : K)
+    (hc : c = 0 ∨ lam i ≠ 0) :
+    negHalf * ∑ b, (V b i * c) * (landmarkSqDist δ lm a b - lmdsMu δ lm b) = c * (lam i * V a i) := by
+  rcases hc with rfl | hl
+  · simp
+  have hsum : ∑ b, V b i = 0 := eig_sum_zero heig (lmdsB_col_sum δ lm hn) i hl
+  calc negHalf * ∑ b, (V b i * c) * (landmarkSqDist δ lm a b - lmdsMu δ lm b)
+      = ∑ b, (V b i * c) * (negHalf * (landmarkSqDist δ lm a b - lmdsMu δ lm b)) := by
+        rw [Finset.mul_sum]; apply Finset.sum_congr rfl; intro b _; ring
+    _ = ∑ b, (c * (lmdsB δ lm a b * V b i)
+          - c * (negHalf * (grandMean (landmarkSqDist δ lm) - lmdsMu δ lm a)) * V b i) := by
         apply Finset.sum_congr rfl; intro b _; rw [negHalf_sub_mu]; ring
-    _ = (s i / lam i) * ∑ b, lmdsB δ lm a b * V b i
-          - (s i / lam i) * (negHalf * (grandMean (landmarkSqDist δ lm) - lmdsMu δ lm a)) * ∑ b, V b i := by
+    _ = c * ∑ b, lmdsB δ lm a b * V b i
+          - c * (negHalf * (grandMean (landmarkSqDist δ lm) - lmdsMu δ lm a)) * ∑ b, V b i := by
         rw [Finset.sum_sub_distrib, ← Finset.mul_sum, ← Finset.mul_sum]
-    _ = V a i * s i := by
+    _ = c * (lam i * V a i) := by
         rw [hsum, isEig_apply heig, mul_zero, sub_zero]
-        field_simp [hl i]
+
+/-! ### the pseudo-inverse of `triangulate` -/
+section pinv
+variable [LinearOrder K]
+
+/-- the factor the pseudo-inverse loop applies to column `i` of `V diag s` -/
+def coef (tol : K) (lam s : Vec d K) : Vec d K := fun i => if tol < lam i then s i / lam i else 0
+
+theorem pinvCols_post {n : Nat} (tol : K) (V : Mat n d K) (lam s : Vec d K) (a : Fin n) (i : Fin d) :
+    pinvCols tol (post V s) lam a i = V a i * coef tol lam s i := by
+  unfold pinvCols coef post
+  split <;> ring
+
+theorem coef_zero_or (tol : K) (htol : 0 ≤ tol) (lam s : Vec d K) (i : Fin d) : coef tol lam s i = 0 ∨ lam i ≠ 0 := by
+  unfold coef
+  by_cases h : tol < lam i
+  · right; exact ne_of_gt (lt_of_le_of_lt htol h)
+  · left; simp [h]
+
+theorem maxAbsVec_foldl_nonneg [IsStrictOrderedRing K] (lam : Vec d K) (l : List (Fin d)) (acc : K) (h : 0 ≤ acc) :
+    0 ≤ l.foldl (fun acc i => if acc < absK (lam i) then absK (lam i) else acc) acc := by
+  induction l generalizing acc with
+  | nil => exact h
+  | cons i t ih =>
+    simp only [List.foldl]
+    apply ih
+    split
+    · rename_i hlt; exact le_of_lt (lt_of_le_of_lt h hlt)
+    · exact h
+
+theorem maxAbsVec_nonneg [IsStrictOrderedRing K] (lam : Vec d K) : 0 ≤ maxAbsVec lam :=
+  maxAbsVec_foldl_nonneg lam _ 0 le_rfl
+
+/-- the tolerance `n · ε · max|λ|` is non-negative -/
+theorem eigTol_nonneg [IsStrictOrderedRing K] (n : Nat) (eps : K) (heps : 0 ≤ eps) (lam : Vec d K) :
+    0 ≤ eigTol n eps lam := by
+  unfold eigTol
+  exact mul_nonneg (mul_nonneg (Nat.cast_nonneg n) heps) (maxAbsVec_nonneg lam)
+
+@[simp] theorem eigTol_zero (n : Nat) (lam : Vec d K) : eigTol n (0 : K) lam = 0 := by
+  simp [eigTol]
+
+theorem clamp0_of_nonneg {x : K} (h : 0 ≤ x) : clamp0 x = x := by
+  unfold clamp0
+  simp [not_lt.mpr h]
+
+theorem clamp0_of_nonpos {x : K} (h : x ≤ 0) : clamp0 x = 0 := by
+  unfold clamp0
+  by_cases hx : x < 0
+  · simp [hx]
+  · simp [hx]; exact le_antisymm h (not_lt.mp hx)
+
+end pinv
 
 end TapkeeVerif.Landmarks
